@@ -270,6 +270,10 @@ class _NotConst(Exception):
 def _ev(e, env):
     if isinstance(e, ast.Constant):
         return e.value
+    if not isinstance(e, ast.Name):
+        k = src(e)
+        if k in env:
+            return env[k]
     if isinstance(e, ast.Name):
         if e.id in env:
             return env[e.id]
